@@ -215,6 +215,58 @@ def need_pass(rep, prog, rule):
     rep.floor(rule, "need_* flags", found, 2)
 
 
+def supersampling_guard(rep, prog, rule):
+    rep.rule(rule, "resample_super_sampling takes the nearest-neighbour pre-scaling step only "
+             "when BOTH axes shrink: the guard quantity is min(width_scale, height_scale) divided "
+             "by the multiplicity (so it is bounded by each axis' scale); a guard that combines "
+             "the two scales any other way resamples an axis whose size already matches")
+    f = prog.fn_by_name("resizer::Resizer::resample_super_sampling")
+    rep.touch(f)
+    sym = Sym(f)
+    nearest = [c for c in f.calls() if c.name.endswith("resample_nearest")]
+    rep.floor(rule, "nearest pre-step calls", len(nearest), 1)
+    for c in nearest:
+        facts = [(cc, v) for cc, v in sym.facts_at(c.bb) if cc[0] == "bin" and cc[1] in ("Gt", "Ge", "Lt", "Le")]
+        guards = [(cc, v) for cc, v in facts if "crop_box" in fmt(cc) and ("Div" in fmt(cc))]
+        g = [(cc, v) for cc, v in guards if "min(" in fmt(cc) or "Mul" in fmt(cc) or "sqrt" in fmt(cc)
+             or "max(" in fmt(cc) or "multiplicity" in fmt(cc)]
+        if not g:
+            rep.unk(rule, "guard", c.at, "no scale guard recognised before the nearest pre-step")
+            continue
+        for cc, v in g:
+            q = cc[2] if (cc[1] in ("Gt", "Ge")) == (v is True) else cc[3]
+            s = fmt(q)
+            has_w = ".width" in s and "width(dst_view)" in s
+            has_h = ".height" in s and "height(dst_view)" in s
+
+            def min_form(e):
+                while e[0] == "cast":
+                    e = e[2]
+                if e[0] == "bin" and e[1] == "Div":
+                    return min_form(e[2])
+                if e[0] == "call" and e[1] == "min" and len(e[2]) == 2:
+                    a, b = fmt(e[2][0]), fmt(e[2][1])
+                    return (".width" in a and ".height" in b) or (".height" in a and ".width" in b)
+                return False
+            other = cc[3] if q is cc[2] else cc[2]
+            thr = other[1] if other[0] == "const" and isinstance(other[1], (int, float)) else None
+            if min_form(q) and (thr is None or thr < 1):
+                rep.unk(rule, "guard", c.at, "threshold %s of the pre-step guard is not a "
+                        "constant >= 1" % fmt(other)[:60])
+            elif min_form(q):
+                rep.ok(rule, "guard", c.at, "pre-step only if %s exceeds the threshold" % s[:100])
+            elif has_w and has_h:
+                rep.bad(rule, "guard", c.at, "the pre-scaling step is guarded by %s, which is not "
+                        "bounded by each axis' own scale: a resize that keeps one dimension "
+                        "(scale 1) but shrinks the other strongly goes through the nearest "
+                        "pre-step and is resampled along the unchanged dimension" % s[:160])
+            elif has_w or has_h:
+                rep.bad(rule, "guard", c.at, "the pre-scaling step looks at one axis only (%s)"
+                        % s[:120])
+            else:
+                rep.unk(rule, "guard", c.at, "guard %s" % s[:120])
+
+
 def none_none(rep, prog, rule):
     mw = flow.MustWrite(prog, rep)
     rep.rule(rule, "do_convolution writes the destination on every non-degenerate path, "
@@ -241,3 +293,4 @@ def run(rep, tier):
         rep.call(copy_cond, rep, prog, "C12.copy-cond")
         rep.call(need_pass, rep, prog, "C12.need-pass")
         rep.call(none_none, rep, prog, "C12.none-none")
+        rep.call(supersampling_guard, rep, prog, "C12.supersampling-guard")
